@@ -26,17 +26,19 @@ BadSpans == {i \in 1..Len(Ev.spans) : ~WellFormed(Ev.spans[i])}
 
 TraceInit == Init /\ l = 1
 
+Forget == phase' = "idle" /\ cited' = <<>> /\ shown' = {}
+
 TraceNext ==
   \/ /\ IsEv("compile")
-     /\ IF phase # "idle"
-        THEN \* the previous report was not rendered twice: start over
-             Reject("compile while a report is pending") /\ phase' = "idle" /\ cited' = <<>> /\ shown' = {}
-        ELSE CASE Ev.outcome = "ok" -> CompileOk
-               [] Ev.outcome = "report" ->
-                    IF BadSpans = {} THEN CompileReport(Ev.spans)
-                    ELSE /\ Reject("cited location not inside its file on character boundaries")
-                         /\ phase' = "report" /\ cited' = <<>> /\ shown' = {}
-               [] OTHER -> Reject("compile did not end in a package or a report") /\ UNCHANGED <<phase, cited, shown>>
+     \* a previous report that was not rendered twice is reported, then this event is judged as usual
+     /\ (phase # "idle" => Reject("compile while a report is pending"))
+     /\ CASE Ev.outcome = "ok" -> IF phase = "idle" THEN CompileOk ELSE Forget
+          [] Ev.outcome = "report" ->
+               IF BadSpans = {} /\ phase = "idle" THEN CompileReport(Ev.spans)
+               ELSE /\ (BadSpans # {} => Reject("cited location not inside its file on character boundaries"))
+                    \* the recorder renders such a report too: judge its render events
+                    /\ phase' = "report" /\ shown' = {} /\ cited' = IF BadSpans = {} THEN Ev.spans ELSE <<>>
+          [] OTHER -> Reject("compile did not end in a package or a report") /\ Forget
   \/ /\ IsEv("render")
      /\ IF phase = "report" /\ Ev.colour \notin shown /\ Ev.res = "done" /\ Ev.shown = Ev.labels
         THEN Render(Ev.colour, Ev.labels, Ev.shown)
@@ -44,7 +46,7 @@ TraceNext ==
                        IF Ev.shown # Ev.labels THEN "a label of the report is not shown" ELSE "render without report")
              /\ shown' = shown \cup {Ev.colour}
              /\ phase' = IF shown' = {TRUE, FALSE} THEN "idle" ELSE phase
-             /\ cited' = cited
+             /\ cited' = IF phase' = "idle" THEN <<>> ELSE cited
 
 TraceSpec == TraceInit /\ [][TraceNext]_tvars
 
